@@ -5,10 +5,23 @@ use cao_lang::compiler::{
     CallNode, Card, CardBody, CardId, CompositeCard, DynamicJump, ForEach, Function, Module, Repeat, SetVar, StaticJump,
     UnaryExpression,
 };
+use serde::{Deserialize, Serialize};
 use serde_json::{json, Value as J};
 use std::rc::Rc;
 
-#[derive(Debug, Clone, Copy, PartialEq, Eq, Hash)]
+mod rc_closure {
+    use super::ClosureDef;
+    use serde::{Deserialize, Deserializer, Serialize, Serializer};
+    use std::rc::Rc;
+    pub fn serialize<S: Serializer>(v: &Rc<ClosureDef>, s: S) -> Result<S::Ok, S::Error> {
+        v.as_ref().serialize(s)
+    }
+    pub fn deserialize<'de, D: Deserializer<'de>>(d: D) -> Result<Rc<ClosureDef>, D::Error> {
+        Ok(Rc::new(ClosureDef::deserialize(d)?))
+    }
+}
+
+#[derive(Debug, Clone, Copy, PartialEq, Eq, Hash, Serialize, Deserialize)]
 pub enum BinOp {
     Add,
     Sub,
@@ -23,7 +36,7 @@ pub enum BinOp {
     Xor,
 }
 
-#[derive(Debug, Clone)]
+#[derive(Debug, Clone, Serialize, Deserialize)]
 pub enum Expr {
     Nil,
     Int(i64),
@@ -42,7 +55,7 @@ pub enum Expr {
     /// function value: (spelled name, resolved function id)
     FuncRef(String, usize),
     NativeRef(String),
-    Closure(Rc<ClosureDef>),
+    Closure(#[serde(with = "rc_closure")] Rc<ClosureDef>),
     CreateTable,
     Array(Vec<Expr>),
     GetProp(Box<Expr>, Box<Expr>),
@@ -54,7 +67,7 @@ pub enum Expr {
     Composite(Vec<Stmt>, Box<Expr>),
 }
 
-#[derive(Debug, Clone)]
+#[derive(Debug, Clone, Serialize, Deserialize)]
 pub enum Stmt {
     SetVar(String, Expr),
     SetGlobal(String, Expr),
@@ -76,14 +89,14 @@ pub enum Stmt {
     ExprStmt(Expr),
 }
 
-#[derive(Debug, Clone)]
+#[derive(Debug, Clone, Serialize, Deserialize)]
 pub struct ClosureDef {
     pub id: usize,
     pub params: Vec<String>,
     pub body: Vec<Stmt>,
 }
 
-#[derive(Debug, Clone)]
+#[derive(Debug, Clone, Serialize, Deserialize)]
 pub struct FuncDef {
     /// index in `Program::funcs`
     pub id: usize,
@@ -94,7 +107,7 @@ pub struct FuncDef {
     pub body: Vec<Stmt>,
 }
 
-#[derive(Debug, Clone, Default)]
+#[derive(Debug, Clone, Default, Serialize, Deserialize)]
 pub struct ModuleDef {
     pub name: String,
     /// ids into Program::funcs, in declaration order
@@ -103,7 +116,7 @@ pub struct ModuleDef {
     pub imports: Vec<String>,
 }
 
-#[derive(Debug, Clone, Default)]
+#[derive(Debug, Clone, Default, Serialize, Deserialize)]
 pub struct Program {
     pub funcs: Vec<FuncDef>,
     pub root: ModuleDef,
